@@ -226,6 +226,30 @@ def cache_faults(ctx):
                 continue
             if got != base:
                 ctx.violation(None, f"cache fault '{name}': tokens differ from the run without a cache", dict(stream="cache", fault=name, got=got, want=base))
+        # a cache directory shared by different configurations (other extractor order, sub-list, another
+        # library version's list): every configuration must behave as it does without a cache
+        with open(path, "wb") as f:
+            f.write(good)
+        variants = [("reversed", exts[::-1]), ("rotated", exts[7:] + exts[:7]), ("sublist", exts[:20]),
+                    ("swapped-pair", [exts[1], exts[0]] + exts[2:])]
+        for k in range(6 if th else 2):
+            sh = list(exts)
+            rng.shuffle(sh)
+            variants.append((f"shuffled#{k}", sh))
+        for name, ex2 in variants * 2:      # second pass: every variant's own file now exists too
+            want = sorted((type(t).__name__, t.start, t.end) for t in HyperscanTokenizer(extractors=ex2).extract_tokens(probe))
+            ctx.case("cache", "shared-dir " + name, True, None)
+            ctx.count("cache shared with another configuration")
+            try:
+                t2 = HyperscanTokenizer(extractors=ex2, cache_dir=d)
+                got = sorted((type(t).__name__, t.start, t.end) for t in t2.extract_tokens(probe))
+            except Exception as e:  # noqa
+                ctx.violation(None, f"shared cache directory ({name}): construction or scan raised {type(e).__name__}",
+                              dict(stream="cache", fault="shared-dir " + name))
+                continue
+            if got != want:
+                ctx.violation(None, f"shared cache directory ({name}): tokens differ from the run without a cache",
+                              dict(stream="cache", fault="shared-dir " + name, got=got, want=want))
     finally:
         shutil.rmtree(d, ignore_errors=True)
     ctx.streams.append("cache")
